@@ -429,6 +429,11 @@ class Routines:
                     out.add(body[i + 2])
                 elif nxt == "(":
                     out.add("()")
+                elif nxt in (".", "->") and i + 2 < len(body) and is_ident(body[i + 2]):
+                    # a DATA MEMBER of the callback object is read (callback.distance_matrix ...): the object is used
+                    # otherwise than through a member function call -- recorded by name, NOT as "unresolved", so that
+                    # routines_invoke_own_role fails on it
+                    out.add("field:" + body[i + 2])
                 elif nxt in ("=", ";") and i > 0 and (is_ident(body[i - 1]) or body[i - 1] in ("&", ">")):
                     pass        # a declaration of the same name (shadowing is not modelled): ignored
                 else:
@@ -936,6 +941,9 @@ MUTATIONS = [
      "DiffusionMap passes Base::kernel"),
     (METHOD_DIR + "/pca.hpp", r"DenseVector mean_vector = compute_mean\(", "IndexType first = *begin;\n        DenseVector mean_vector = compute_mean(",
      "PCA reads the first data object as an index"),
+    ("include/tapkee/routines/multidimensional_scaling.hpp", r"ScalarType d = callback\.distance\(begin\[i_index_iter\], begin\[j_index_iter\]\);",
+     "ScalarType d = callback.distance(begin[i_index_iter], begin[j_index_iter]) + 0 * callback.distance_matrix(0, 0);",
+     "MDS reads a data member of the distance callback object (a fast path keyed on the callback's type)"),
     (BASE, r"return find_neighbors\(parameters\[neighbors_method\], begin, end, d,", "return find_neighbors(parameters[neighbors_method], begin, end, kernel_distance,",
      "find_neighbors_with ignores its argument and uses kernel_distance"),
 ]
